@@ -64,6 +64,7 @@ func cmdCheck(argv []string) int {
 	timeout := 40
 	if *tier == "thorough" {
 		timeout = 180
+		crossCheck = true
 	}
 	outDir = filepath.Join(outRoot, *prop)
 	os.RemoveAll(outDir)
@@ -240,6 +241,15 @@ func cmdCheck(argv []string) int {
 			}
 		}
 		if isKnown {
+			if *tier == "thorough" && !reported["kf:"+baseOblName(rep.Name)] {
+				// thorough tier: the listed finding must still reproduce on the real code
+				reported["kf:"+baseOblName(rep.Name)] = true
+				if rr := tryReplay(*prop, rep, byName[rep.Name]); rr.Ran && !rr.Confirmed {
+					fmt.Printf("NOTE: known finding %s did not reproduce in its replay on the real code (stale entry in known_findings.json?)\n", baseOblName(rep.Name))
+				} else if rr.Ran {
+					fmt.Printf("NOTE: known finding %s reproduced on the real code\n", baseOblName(rep.Name))
+				}
+			}
 			rep.Status = "known-finding(" + rep.Status + ")"
 			continue
 		}
